@@ -1,10 +1,13 @@
 import TracklibVerif.Lemmas.ExprAgg
 /-! The definitions of `ARGMIN` / `ARGMAX`, `D`, `I`, `D2` as coded against their documented formulas.
 
-* `Argmin` / `Argmax` (`if val < minimum: minimum = val; idmin = i` from `minimum = +inf`, `idmin = 0`): under the order laws
-  of the comparison the loop returns the *first* index at which the vector takes the value `MIN` (`MAX`) returns, as soon
-  as that value is below `+inf` (above `-inf`); otherwise — no value strictly inside the start value — it returns `0`
-  (the residual discrepancy `argextremum-equal-to-start-value` when observation 0 is a NaN).
+* `Argmin` / `Argmax` (since fix b728412: `minimum = +inf`, `idmin = None`,
+  `if val < minimum or (idmin is None and val == minimum): minimum = val; idmin = i`, `return 0 if idmin is None else idmin`):
+  under the order laws of the comparison and the two facts about `==` at the start value (`inf == inf`, nothing else is
+  `== inf`) the loop returns the *first* index at which the vector takes the value `MIN` (`MAX`) returns, as soon as the
+  vector holds one number — the infinities included: `ARGMIN{[nan, inf, inf]} = 1` —; on an empty or all-NaN vector
+  (no documented index) it returns `0`. (The pre-fix loop started from index 0 and moved on a strict improvement only: it
+  returned 0, possibly the index of a NaN, whenever the least number was `+inf` itself.)
 * `Differentiator`, `Integrator`, `SecondOrderFiniteDiff`: the index-wise recurrences
   `y(0) = NaN, y(t) = x(t) - x(t-1)`; `y(0) = 0, y(t) = y(t-1) + x(t)`; `y(t) = x(t+1) - 2 x(t) + x(t-1)`, NaN at both ends.
 No law of arithmetic is used for the second group. -/
@@ -20,77 +23,138 @@ structure Better (better : α → α → Bool) : Prop where
 theorem better_lt (L : OrdLaws α) : Better (fun (v m : α) => lt v m) := ⟨L.irrefl, L.trans⟩
 theorem better_gt (L : OrdLaws α) : Better (fun (v m : α) => lt m v) := ⟨L.irrefl, fun a b c h1 h2 => L.trans c b a h2 h1⟩
 
-/-- the index loop and the value fold run together: either nothing was better than the start value (value and index
-    unchanged), or the index returned is that of the *first* position holding the final value, which is better than
-    the start value -/
-theorem argLoop_spec (better : α → α → Bool) (B : Better better) : ∀ (vs : List α) (i : Nat) (cur : α) (best : Nat),
-    (vs.foldl (fun m v => if better v m then v else m) cur = cur ∧ argLoop better vs i cur best = best) ∨
-    (∃ k, argLoop better vs i cur best = i + k ∧ vs[k]? = some (vs.foldl (fun m v => if better v m then v else m) cur)
-      ∧ better (vs.foldl (fun m v => if better v m then v else m) cur) cur = true
+/-- what the loops use of Python's `==` against their start value: an infinity is equal to itself and to nothing else -/
+structure EqLaws (α : Type) [Scalar α] : Prop where
+  inf_self : eq (inf : α) inf = true
+  eq_inf : ∀ v : α, eq v inf = true → v = inf
+  ninf_self : eq (neg inf : α) (neg inf) = true
+  eq_ninf : ∀ v : α, eq v (neg inf) = true → v = neg inf
+
+/-- the index loop and the value fold run together (`F` = the fold of `Min` / `Max` from `cur`). As long as no index has
+    been taken (`best = none`) `cur` is the start value, which `==` recognises exactly. Either nothing moved — value and
+    index unchanged, and when no index had been taken no value was better than or equal to the start value —, or the
+    index returned is that of the *first* position holding the final value, which is better than `cur` or (first index
+    taken on equality) `cur` itself -/
+theorem argLoop_spec (better : α → α → Bool) (B : Better better) : ∀ (vs : List α) (i : Nat) (cur : α) (best : Option Nat),
+    (best = none → eq cur cur = true ∧ ∀ v : α, eq v cur = true → v = cur) →
+    (vs.foldl (fun m v => if better v m then v else m) cur = cur ∧ argLoop better vs i cur best = best ∧
+      (best = none → ∀ v ∈ vs, better v cur = false ∧ eq v cur = false)) ∨
+    (∃ k, argLoop better vs i cur best = some (i + k) ∧ vs[k]? = some (vs.foldl (fun m v => if better v m then v else m) cur)
+      ∧ (better (vs.foldl (fun m v => if better v m then v else m) cur) cur = true
+          ∨ (best = none ∧ vs.foldl (fun m v => if better v m then v else m) cur = cur))
       ∧ ∀ j, j < k → vs[j]? ≠ some (vs.foldl (fun m v => if better v m then v else m) cur)) := by
   intro vs
   induction vs with
-  | nil => intro i cur best; exact Or.inl ⟨rfl, rfl⟩
+  | nil => intro i cur best _; exact Or.inl ⟨rfl, rfl, fun _ v hv => by simp at hv⟩
   | cons w ws ih =>
-    intro i cur best
+    intro i cur best hst
     simp only [List.foldl_cons, argLoop]
-    by_cases hw : better w cur = true
-    · simp only [hw, if_true]
-      rcases ih (i + 1) w i with ⟨h1, h2⟩ | ⟨k, h1, h2, h3, h4⟩
-      · refine Or.inr ⟨0, by rw [h2]; rfl, by rw [h1]; rfl, by rw [h1]; exact hw, fun j hj => absurd hj (Nat.not_lt_zero j)⟩
+    by_cases hit : (better w cur || (best.isNone && eq w cur)) = true
+    · have hcur : better w cur = true ∨ (best = none ∧ w = cur) := by
+        by_cases hb : better w cur = true
+        · exact Or.inl hb
+        · have hb' : better w cur = false := by simpa using hb
+          simp only [hb', Bool.false_or, Bool.and_eq_true, Option.isNone_iff_eq_none] at hit
+          exact Or.inr ⟨hit.1, (hst hit.1).2 w hit.2⟩
+      have hF : (if better w cur = true then w else cur) = w := by
+        rcases hcur with hb | ⟨_, hb⟩
+        · simp [hb]
+        · simp [hb]
+      rw [if_pos hit, hF]
+      rcases ih (i + 1) w (some i) (by intro h; cases h) with ⟨h1, h2, _⟩ | ⟨k, h1, h2, h3, h4⟩
+      · refine Or.inr ⟨0, by rw [h2]; rfl, by rw [h1]; rfl, by rw [h1]; exact hcur, fun j hj => absurd hj (Nat.not_lt_zero j)⟩
       · generalize ws.foldl (fun m v => if better v m then v else m) w = m at h2 h3 h4
-        refine Or.inr ⟨k + 1, by rw [h1]; omega, by simpa using h2, B.trans m w cur h3 hw, ?_⟩
-        intro j hj
-        cases j with
-        | zero =>
-          intro hc
-          simp only [List.getElem?_cons_zero, Option.some.injEq] at hc
-          rw [hc, B.irrefl m] at h3; cases h3
-        | succ j => simpa using h4 j (by omega)
-    · have hw' : better w cur = false := by simpa using hw
-      simp only [hw', Bool.false_eq_true, if_false]
-      rcases ih (i + 1) cur best with ⟨h1, h2⟩ | ⟨k, h1, h2, h3, h4⟩
-      · exact Or.inl ⟨h1, h2⟩
+        have h3' : better m w = true := by
+          rcases h3 with h3 | ⟨h3, _⟩
+          · exact h3
+          · cases h3
+        refine Or.inr ⟨k + 1, by rw [h1]; congr 1; omega, by simpa using h2, ?_, ?_⟩
+        · rcases hcur with hc | ⟨_, hc⟩
+          · exact Or.inl (B.trans m w cur h3' hc)
+          · exact Or.inl (by rw [← hc]; exact h3')
+        · intro j hj
+          cases j with
+          | zero =>
+            intro hc
+            simp only [List.getElem?_cons_zero, Option.some.injEq] at hc
+            rw [hc, B.irrefl m] at h3'; cases h3'
+          | succ j => simpa using h4 j (by omega)
+    · have hit' : (better w cur || (best.isNone && eq w cur)) = false := by simpa using hit
+      obtain ⟨hb, he⟩ := Bool.or_eq_false_iff.mp hit'
+      rw [if_neg hit]
+      simp only [hb, Bool.false_eq_true, if_false]
+      rcases ih (i + 1) cur best hst with ⟨h1, h2, h5⟩ | ⟨k, h1, h2, h3, h4⟩
+      · refine Or.inl ⟨h1, h2, ?_⟩
+        intro hn v hv
+        rcases List.mem_cons.mp hv with rfl | hv
+        · refine ⟨hb, ?_⟩
+          subst hn
+          simpa using he
+        · exact h5 hn v hv
       · generalize ws.foldl (fun m v => if better v m then v else m) cur = m at h2 h3 h4
-        refine Or.inr ⟨k + 1, by rw [h1]; omega, by simpa using h2, h3, ?_⟩
+        refine Or.inr ⟨k + 1, by rw [h1]; congr 1; omega, by simpa using h2, h3, ?_⟩
         intro j hj
         cases j with
         | zero =>
           intro hc
           simp only [List.getElem?_cons_zero, Option.some.injEq] at hc
-          rw [hc, h3] at hw'; cases hw'
+          rcases h3 with h3 | ⟨hn, h3⟩
+          · rw [hc, h3] at hb; cases hb
+          · subst hn
+            rw [hc, h3, (hst rfl).1] at he
+            simp at he
         | succ j => simpa using h4 j (by omega)
 
-/-- **`ARGMIN` as coded**: when the value `MIN` returns is below `+inf`, `ARGMIN` is the first index at which the
-    vector takes that value (documented: `min {t | x(t) = min(x)}`) -/
-theorem argminL_first (L : OrdLaws α) (c : List α) (h : lt (minL c) inf = true) :
+/-- **`ARGMIN` as coded (fix b728412)**: as soon as the vector holds one number (a non-NaN value, `+inf` included),
+    `ARGMIN` is the first index at which the vector takes the value `MIN` returns (documented: `min {t | x(t) = min(x)}`) -/
+theorem argminL_first (L : OrdLaws α) (T : TopLaws α) (E : EqLaws α) (c : List α) (w : α) (hw : w ∈ c) (hn : isNaN w = false) :
     ∃ k, argminL c = ofNat k ∧ c[k]? = some (minL c) ∧ ∀ j, j < k → c[j]? ≠ some (minL c) := by
-  rcases argLoop_spec (fun (v m : α) => lt v m) (better_lt L) c 0 inf 0 with ⟨h1, _⟩ | ⟨k, h1, h2, _, h4⟩
-  · have h1' : minL c = inf := h1
-    rw [h1', L.irrefl] at h; cases h
-  · exact ⟨k, by simp only [argminL, h1, Nat.zero_add], h2, h4⟩
+  rcases argLoop_spec (fun (v m : α) => lt v m) (better_lt L) c 0 inf none (fun _ => ⟨E.inf_self, E.eq_inf⟩)
+    with ⟨_, _, h3⟩ | ⟨k, h1, h2, _, h4⟩
+  · obtain ⟨hb, he⟩ := h3 rfl w hw
+    have hb' : lt w inf = false := hb
+    rcases T.top w hn with ht | ht
+    · rw [ht] at hb'; cases hb'
+    · rw [ht, E.inf_self] at he; cases he
+  · exact ⟨k, by simp only [argminL, h1, Nat.zero_add, Option.getD_some], h2, h4⟩
 
-/-- … and when nothing is below `+inf` (an empty or all-NaN vector, or `+inf` itself the least number) the loop never
-    moves: `ARGMIN` is `0`, whatever observation 0 holds (finding `argextremum-equal-to-start-value` when it is a NaN) -/
-theorem argminL_start (L : OrdLaws α) (c : List α) (h : lt (minL c) inf = false) : argminL c = ofNat 0 := by
-  rcases argLoop_spec (fun (v m : α) => lt v m) (better_lt L) c 0 inf 0 with ⟨_, h2⟩ | ⟨k, _, _, h3, _⟩
-  · simp only [argminL, h2]
-  · have h3' : lt (minL c) inf = true := h3
-    rw [h] at h3'; cases h3'
+/-- … and on an empty or all-NaN vector (no documented index) no index is ever taken: `ARGMIN` is `0` -/
+theorem argminL_none (L : OrdLaws α) (T : TopLaws α) (E : EqLaws α) (c : List α) (h : ∀ v ∈ c, isNaN v = true) :
+    argminL c = ofNat 0 := by
+  rcases argLoop_spec (fun (v m : α) => lt v m) (better_lt L) c 0 inf none (fun _ => ⟨E.inf_self, E.eq_inf⟩)
+    with ⟨_, h2, _⟩ | ⟨k, _, h2, h3, _⟩
+  · simp only [argminL, h2, Option.getD_none]
+  · exfalso
+    have hnan := h _ (List.mem_of_getElem? h2)
+    rcases h3 with h3 | ⟨_, h3⟩
+    · have h3' : lt (c.foldl (fun m v => if lt v m then v else m) inf) inf = true := h3
+      rw [T.nan_lt _ _ hnan] at h3'; cases h3'
+    · rw [h3, T.inf_num] at hnan; cases hnan
 
-/-- **`ARGMAX` as coded**: the first index at which the vector takes the value `MAX` returns, when that is above `-inf` -/
-theorem argmaxL_first (L : OrdLaws α) (c : List α) (h : lt (neg inf) (maxL c) = true) :
+/-- **`ARGMAX` as coded (fix b728412)**: the first index at which the vector takes the value `MAX` returns, as soon as the
+    vector holds one number (`-inf` included) -/
+theorem argmaxL_first (L : OrdLaws α) (T : TopLaws α) (E : EqLaws α) (c : List α) (w : α) (hw : w ∈ c) (hn : isNaN w = false) :
     ∃ k, argmaxL c = ofNat k ∧ c[k]? = some (maxL c) ∧ ∀ j, j < k → c[j]? ≠ some (maxL c) := by
-  rcases argLoop_spec (fun (v m : α) => lt m v) (better_gt L) c 0 (neg inf) 0 with ⟨h1, _⟩ | ⟨k, h1, h2, _, h4⟩
-  · have h1' : maxL c = neg inf := h1
-    rw [h1', L.irrefl] at h; cases h
-  · exact ⟨k, by simp only [argmaxL, h1, Nat.zero_add], h2, h4⟩
+  rcases argLoop_spec (fun (v m : α) => lt m v) (better_gt L) c 0 (neg inf) none (fun _ => ⟨E.ninf_self, E.eq_ninf⟩)
+    with ⟨_, _, h3⟩ | ⟨k, h1, h2, _, h4⟩
+  · obtain ⟨hb, he⟩ := h3 rfl w hw
+    have hb' : lt (neg inf) w = false := hb
+    rcases T.bot w hn with ht | ht
+    · rw [ht] at hb'; cases hb'
+    · rw [ht, E.ninf_self] at he; cases he
+  · exact ⟨k, by simp only [argmaxL, h1, Nat.zero_add, Option.getD_some], h2, h4⟩
 
-theorem argmaxL_start (L : OrdLaws α) (c : List α) (h : lt (neg inf) (maxL c) = false) : argmaxL c = ofNat 0 := by
-  rcases argLoop_spec (fun (v m : α) => lt m v) (better_gt L) c 0 (neg inf) 0 with ⟨_, h2⟩ | ⟨k, _, _, h3, _⟩
-  · simp only [argmaxL, h2]
-  · have h3' : lt (neg inf) (maxL c) = true := h3
-    rw [h] at h3'; cases h3'
+theorem argmaxL_none (L : OrdLaws α) (T : TopLaws α) (E : EqLaws α) (c : List α) (h : ∀ v ∈ c, isNaN v = true) :
+    argmaxL c = ofNat 0 := by
+  rcases argLoop_spec (fun (v m : α) => lt m v) (better_gt L) c 0 (neg inf) none (fun _ => ⟨E.ninf_self, E.eq_ninf⟩)
+    with ⟨_, h2, _⟩ | ⟨k, _, h2, h3, _⟩
+  · simp only [argmaxL, h2, Option.getD_none]
+  · exfalso
+    have hnan := h _ (List.mem_of_getElem? h2)
+    rcases h3 with h3 | ⟨_, h3⟩
+    · have h3' : lt (neg inf) (c.foldl (fun m v => if lt m v then v else m) (neg inf)) = true := h3
+      rw [T.lt_nan _ _ hnan] at h3'; cases h3'
+    · rw [h3, T.ninf_num] at hnan; cases hnan
 
 /-! ### `D`, `I`, `D2` -/
 
